@@ -7,7 +7,8 @@
 // that routes values through `locals` and the collection functions), writes .yaml, .yml and two .hcl files on an
 // in-memory file system and runs the real config.ReadAmmoConfig on each.
 //
-// Observation:  y=<dump|err> yml=<=|dump|err> h=<=|dump|err> hl=<=|dump|err> e=<=|dump|err>
+// Observation:  y=<dump|err> yml=<=|dump|err> h=<=|dump|err> hl=<=|dump|err> e=<=|dump|err> ya=<=|dump|err>
+// (ya: a second YAML spelling: plain/single-quoted scalars, flow collections, anchors under `locals:` merged with <<: and overridden)
 // (e: the description after an edit, written over the same .yaml/.hcl files: its HCL reading against its YAML reading)
 // (`=`: identical to the .yaml result; dumps are canonical renderings of the whole AmmoConfig with every
 // plugin instance opened: registered name + the fields of its config).
@@ -117,6 +118,179 @@ func toYAML(v *s.V) string {
 	var b strings.Builder
 	yamlOf(v, "", &b)
 	return strings.TrimPrefix(b.String(), "\n") + "\n"
+}
+
+// ---- the second YAML spelling: plain / single-quoted scalars where YAML allows them, flow collections, and repeated
+// string maps factored into anchors under `locals:` that are merged with `<<:` and partly overridden (the documented
+// YAML counterpart of HCL's merge(local.x, {...}))
+
+var yamlReserved = map[string]bool{"true": true, "false": true, "null": true, "yes": true, "no": true, "on": true, "off": true, "y": true, "n": true, "~": true}
+
+func plainSafe(x string) bool {
+	if x == "" || yamlReserved[strings.ToLower(x)] {
+		return false
+	}
+	for i, c := range x {
+		ok := (c >= 'a' && c <= 'z') || (c >= 'A' && c <= 'Z') || c == '_' || c == '/'
+		if i > 0 {
+			ok = ok || c == '-' || (c >= '0' && c <= '9')
+		}
+		if !ok {
+			return false
+		}
+	}
+	return true
+}
+
+type yamlAlt struct {
+	r       *vh.Rand
+	anchors []string // rendered entries of the locals map
+	n       int
+}
+
+func (y *yamlAlt) scalar(x string) string {
+	switch {
+	case plainSafe(x) && y.r.Intn(3) != 0:
+		return x
+	case !strings.ContainsAny(x, "'\n\r\t\\") && utf8.ValidString(x) && !hasControl(x) && y.r.Bool():
+		return "'" + x + "'"
+	}
+	return yq(x)
+}
+
+func hasControl(x string) bool {
+	for _, c := range x {
+		if c < 0x20 || c == 0x7f {
+			return true
+		}
+	}
+	return false
+}
+
+func isStrMap(v *s.V) bool {
+	if v.K != 'm' || len(v.M) == 0 {
+		return false
+	}
+	for _, kv := range v.M {
+		if kv.Val.K != 's' {
+			return false
+		}
+	}
+	return true
+}
+
+func isStrList(v *s.V) bool {
+	if v.K != 'l' || len(v.L) == 0 {
+		return false
+	}
+	for _, x := range v.L {
+		if x.K != 's' {
+			return false
+		}
+	}
+	return true
+}
+
+func (y *yamlAlt) emit(v *s.V, ind string, b *strings.Builder) {
+	switch v.K {
+	case 'n':
+		b.WriteString("~")
+	case 't':
+		b.WriteString("true")
+	case 'f':
+		b.WriteString("false")
+	case 'i':
+		b.WriteString(strconv.FormatInt(v.I, 10))
+	case 's':
+		b.WriteString(y.scalar(v.S))
+	case 'l':
+		if len(v.L) == 0 {
+			b.WriteString("[]")
+			return
+		}
+		if isStrList(v) && y.r.Bool() {
+			items := make([]string, 0, len(v.L))
+			for _, x := range v.L {
+				items = append(items, yq(x.S))
+			}
+			b.WriteString("[" + strings.Join(items, ", ") + "]")
+			return
+		}
+		for _, x := range v.L {
+			b.WriteString("\n" + ind + "- ")
+			y.inline(x, ind+"  ", b)
+		}
+	case 'm':
+		if len(v.M) == 0 {
+			b.WriteString("{}")
+			return
+		}
+		if isStrMap(v) {
+			switch y.r.Intn(3) {
+			case 0: // flow style
+				items := make([]string, 0, len(v.M))
+				for _, kv := range v.M {
+					items = append(items, yq(kv.Key)+": "+yq(kv.Val.S))
+				}
+				b.WriteString("{" + strings.Join(items, ", ") + "}")
+				return
+			case 1: // anchor with every key, the last one carrying a value that is overridden at the use
+				y.n++
+				name := "m" + strconv.Itoa(y.n)
+				var a strings.Builder
+				a.WriteString("  " + name + ": &" + name)
+				for i, kv := range v.M {
+					val := kv.Val.S
+					if i == len(v.M)-1 {
+						val = "overridden at the use"
+					}
+					a.WriteString("\n    " + yq(kv.Key) + ": " + yq(val))
+				}
+				y.anchors = append(y.anchors, a.String())
+				last := v.M[len(v.M)-1]
+				b.WriteString("\n" + ind + "<<: *" + name)
+				b.WriteString("\n" + ind + yq(last.Key) + ": " + y.scalar(last.Val.S))
+				return
+			}
+		}
+		for _, kv := range v.M {
+			key := yq(kv.Key)
+			if plainSafe(kv.Key) {
+				key = kv.Key
+			}
+			b.WriteString("\n" + ind + key + ": ")
+			y.emit(kv.Val, ind+"  ", b)
+		}
+	}
+}
+
+func (y *yamlAlt) inline(v *s.V, ind string, b *strings.Builder) {
+	if v.K == 'm' && len(v.M) > 0 && !isStrMap(v) {
+		for i, kv := range v.M {
+			if i > 0 {
+				b.WriteString("\n" + ind)
+			}
+			key := yq(kv.Key)
+			if plainSafe(kv.Key) {
+				key = kv.Key
+			}
+			b.WriteString(key + ": ")
+			y.emit(kv.Val, ind+"  ", b)
+		}
+		return
+	}
+	y.emit(v, ind, b)
+}
+
+func toYAMLAlt(v *s.V, r *vh.Rand) string {
+	y := &yamlAlt{r: r}
+	var b strings.Builder
+	y.emit(v, "", &b)
+	body := strings.TrimPrefix(b.String(), "\n") + "\n"
+	if len(y.anchors) > 0 {
+		return "locals:\n" + strings.Join(y.anchors, "\n") + "\n" + body
+	}
+	return body
 }
 
 func hq(x string) string {
@@ -730,7 +904,10 @@ type runner struct {
 
 // Every rendering is written under ONE file name per extension: the files are re-written between reads, as a user
 // editing his scenario would do, so nothing may be remembered per file name.
-func (rn *runner) read(text, ext string) (res string) {
+func (rn *runner) read(text, ext string) string { return rn.readOpt(text, ext, false) }
+
+// dropLocals: the `locals:` key of a YAML scenario only holds anchors; it is not part of the ammo
+func (rn *runner) readOpt(text, ext string, dropLocals bool) (res string) {
 	defer func() {
 		if r := recover(); r != nil {
 			res = "panic"
@@ -744,6 +921,9 @@ func (rn *runner) read(text, ext string) (res string) {
 			fmt.Fprintln(os.Stderr, ext, "ERR:", err)
 		}
 		return "err"
+	}
+	if dropLocals {
+		cfg.Locals = nil
 	}
 	return rn.lab.DumpDetailed(rn.node, reflect.ValueOf(cfg).Elem())
 }
@@ -812,7 +992,12 @@ func run(cases []string) []string {
 		ed := edited(tree)
 		rey := rn.read(toYAML(ed), ".yaml")
 		reh := rn.read(toHCL(ed, false, r), ".hcl")
-		out = append(out, fmt.Sprintf("y=%s yml=%s h=%s hl=%s e=%s", ry, same(ryml, ry), same(rh, ry), same(rhl, ry), same(reh, rey)))
+		yaText := toYAMLAlt(tree, r)
+		rya := rn.readOpt(yaText, ".yaml", true)
+		if rya != ry && os.Getenv("A16_DEBUG") != "" {
+			fmt.Fprintln(os.Stderr, "---- yaml with anchors differs:\n"+yaText)
+		}
+		out = append(out, fmt.Sprintf("y=%s yml=%s h=%s hl=%s e=%s ya=%s", ry, same(ryml, ry), same(rh, ry), same(rhl, ry), same(reh, rey), same(rya, ry)))
 	}
 	return out
 }
